@@ -24,7 +24,7 @@ Definition factors_plane (x y : Z) (at_ : attrs) : factors O :=
           let w := rwidth (mk_rect mk) in
           let m := match mk_data mk with
                    | [] => f1
-                   | _ => abs_at (mk_rect mk) (plane_at (mk_data mk) w) (byte (mk_bg mk)) x y
+                   | _ => abs_at (mk_rect mk) (plane_at (at_den at_) (mk_data mk) w) (byte (mk_bg mk)) x y
                    end in
           (m, match mk_density mk with None => f1 | Some d => byte d end)
     | None => (f1, f1)
@@ -39,7 +39,7 @@ Fixpoint plane_layer (x y : Z) (k : nat) (L : layer) (clips : list (elem O)) {st
   match L with
   | Px rc chans alpha _ =>
       let w := rwidth rc in
-      [Leaf (abs_at rc (plane_at (nth k chans []) w) f1 x y) (abs_at rc (plane_at alpha w) f0 x y)
+      [Leaf (abs_at rc (plane_at (at_den at_) (nth k chans []) w) f1 x y) (abs_at rc (plane_at (at_den at_) alpha w) f0 x y)
             fa B (at_ko at_) clips]
   | Gr pass ch _ =>
       let fix go (ls : list layer) : list (elem O) * list (elem O) :=
